@@ -149,12 +149,12 @@ def cell_request(cell, version):
                 prefix = param["classifier"].prefix.value.lower()
                 if prefix in modifier_keywords:
                     attr, _ = cell._INPUTS_TO_PROPERTY[modifier_keywords[prefix]]
-                    if attr == "_importance":
-                        if printed_importance:
-                            continue
-                        printed_importance = True
+                    if attr == "_importance" and printed_importance:
+                        continue
                     mod = getattr(cell, attr)
                     text = mod._format_as_text(version)
+                    if attr == "_importance" and (text or not hasattr(cell, "_comments_after")):
+                        printed_importance = True      # 3eacc4c: only an importance that is written counts
                     if not text and mod.set_in_cell_block and hasattr(cell, "_comments_after"):
                         # a parameter that is written in the data block leaves its comments in the cell
                         text = cell._comments_after(param)
